@@ -19,3 +19,8 @@ impl Observer {
     #[verifier::external_body]
     pub fn defer_dump_old_blob_indexes(&mut self) ensures final(self).sent() == old(self).sent().push(Request::DeferredDump) { unimplemented!() }
 }
+
+// R8: AtomicBool::compare_exchange(current, new, ..).is_err(), sequentially
+pub fn cas_bool_failed(a: &mut bool, current: bool, new: bool) -> (failed: bool)
+    ensures failed == (*old(a) != current), *final(a) == (if *old(a) == current { new } else { *old(a) })
+{ if *a == current { *a = new; false } else { true } }
